@@ -125,7 +125,8 @@ static bool IsLess(const Char_T *left, const Char_T *right, SizeT left_length, S
         ++offset;
     }
 
-    return (orEqual & (left_length == right_length));
+    // all common code units are equal: the shorter string (a proper prefix) sorts first.
+    return ((left_length < right_length) || (orEqual && (left_length == right_length)));
 }
 
 template <typename Char_T>
@@ -145,7 +146,8 @@ static bool IsGreater(const Char_T *left, const Char_T *right, SizeT left_length
         ++offset;
     }
 
-    return (orEqual & (left_length == right_length));
+    // all common code units are equal: the longer string sorts last.
+    return ((left_length > right_length) || (orEqual && (left_length == right_length)));
 }
 
 template <typename Char_T>
